@@ -34,4 +34,4 @@ sed -i "s#path = \"/repo/#path = \"$D/repo/#" $D/harness/Cargo.toml
 cp /verif/known_findings.json $D/root/ 2>/dev/null
 cp -r /verif/replays $D/root/ 2>/dev/null
 ( cd $D/harness && RUSTFLAGS="--cfg kolibrie_verif" CARGO_TARGET_DIR=$D/target cargo build --offline --quiet --bin $bin 2>$D/build.log ) || { echo "BUILD FAILED (see $D/build.log)"; tail -20 $D/build.log; exit 2; }
-cd $D/root && KVH_ROOT=$D/root VERIF_SEED=${VERIF_SEED:-0} RAYON_NUM_THREADS=16 $D/target/debug/$bin "$@"
+cd $D/root && KVH_ROOT=$D/root KVH_BIN=$D/target/debug KVH_NO_BUILD=1 VERIF_SEED=${VERIF_SEED:-0} /verif/check $ID "$@"
